@@ -9,6 +9,7 @@ CONSTANTS
   ServerRun = TRUE
   CasLoserErrors = TRUE
   ExitCheckAfterHandler = TRUE
+  HooksConcurrent = TRUE
   CountAtAccept = TRUE
 SPECIFICATION FairSpec
 INVARIANTS TypeOK ObligationsHold
